@@ -16,7 +16,9 @@ V6FORMS = [lambda k: bytes([0x20, 1, 0xd, 0xb8, 0, 0, 0, 0, 0, 0, 0, 0, 0, 0, k 
            lambda k: bytes([0] * 12 + [203, 0, k >> 8 & 255, k & 255]),                          # IPv4-compatible
            lambda k: bytes([0xfe, 0x80] + [0] * 12 + [k >> 8 & 255, k & 255]),                   # link-local
            lambda k: bytes([0x20, 2, 192, 0, 2, k & 255] + [0] * 9 + [k >> 8 & 255]),            # 6to4
-           lambda k: bytes([0, 0x64, 0xff, 0x9b] + [0] * 8 + [192, 0, k >> 8 & 255, k & 255])]   # NAT64
+           lambda k: bytes([0, 0x64, 0xff, 0x9b] + [0] * 8 + [192, 0, k >> 8 & 255, k & 255]),   # NAT64
+           lambda k: bytes([0x20, 1, 0xd, 0xb8, 0x08, 0x00] + [0] * 8 + [k >> 8 & 255, k & 255]),  # octets 12..13 of a raw frame read 08 00
+           lambda k: bytes([0x20, 1, 0xd, 0xb8, 0x86, 0xdd] + [0] * 8 + [k >> 8 & 255, k & 255])]  # ... read 86 dd
 SYNOPTS = [lambda ts: b"\x02\x04\x05\xb4\x04\x02\x08\x0a" + ts.to_bytes(4, "big") + b"\x00\x00\x00\x00\x01\x03\x03\x07",      # mss,sok,ts,nop,ws
            lambda ts: b"\x02\x04\x05\xb4\x01\x03\x03\x08\x01\x01\x04\x02",                                                     # mss,nop,ws,nop,nop,sok
            lambda ts: b"\x02\x04\x02\x18",                                                                                     # mss only
@@ -59,8 +61,10 @@ def style(rng, c):
     """the per-connection features"""
     ver = 6 if rng.random() < 0.4 else 4
     if ver == 4:
-        form = rng.choice(["below", "above", "same", "far"])
-        cip = {"below": (10, 1, c >> 8 & 255, c & 255), "above": (10, 3, c >> 8 & 255, c & 255), "same": (127, 0, c >> 8 & 255, c & 255 or 1), "far": (203, 0, c >> 8 & 255, c & 255)}[form]
+        form = rng.choice(["below", "above", "same", "far", "ethertype4", "ethertype6"])
+        # the last two: source addresses whose first octets, at offset 12 of a raw-IP frame, read like the EtherTypes 08 00 / 86 dd
+        cip = {"below": (10, 1, c >> 8 & 255, c & 255), "above": (10, 3, c >> 8 & 255, c & 255), "same": (127, 0, c >> 8 & 255, c & 255 or 1), "far": (203, 0, c >> 8 & 255, c & 255),
+               "ethertype4": (8, 0, (5, 69, 96)[c % 3], c & 255 or 1), "ethertype6": (134, 221, (5, 69, 96)[c % 3], c & 255 or 1)}[form]
         sip = cip if form == "same" else (10, 2, 0, 1 + c % 3)
     else:
         f = rng.randrange(len(V6FORMS))
@@ -73,7 +77,9 @@ def style(rng, c):
             "fragw": (lambda k: 0x4000) if rng.random() < 0.6 else (lambda k, o=rng.randrange(4): (0x0000, 0x2000, 0x4000, 0x8000, 0xc000)[(k + o) % 5]),
             "ipopts": rng.choice([b"", b"", b"", b"\x01\x01\x01\x01", b"\x01\x01\x01\x01\x01\x01\x01\x00"]) if ver == 4 else b"",
             "dmac": rng.choice(MACS), "smac": rng.choice(MACS), "syn": rng.randrange(len(SYNOPTS)), "tsopt": rng.random() < 0.4,
-            "isn_c": rng.choice([rng.randrange(M32), M32 - 3, 0]), "isn_s": rng.choice([rng.randrange(M32), M32 - 1])}
+            "isn_c": rng.choice([rng.randrange(M32), M32 - 3, 0]), "isn_s": rng.choice([rng.randrange(M32), M32 - 1]),
+            # extra bits on the handshake segments: ECN setup (SYN|ECE|CWR, SYN|ACK|ECE), PSH, URG
+            "synflags": rng.choice([0x02, 0x02, 0x02, 0xc2, 0x42, 0x0a, 0x22]), "synackflags": rng.choice([0x12, 0x12, 0x12, 0x52, 0x1a, 0x92])}
 
 
 def connection(rng, c, kind, ipid, maxpieces=4):
@@ -99,7 +105,7 @@ def connection(rng, c, kind, ipid, maxpieces=4):
         return pkt(ver, sip, cip, sport, cp, seq, ack, flags, payload, opts, ttl=st["ttl_s"], tos=0, ipid=ipid(), fragw=st["fragw"](k[0]), ipopts=b"", flow=0, dmac=st["smac"], smac=st["dmac"])
     ts = lambda v, e: (b"\x01\x01\x08\x0a" + (v % M32).to_bytes(4, "big") + (e % M32).to_bytes(4, "big")) if st["tsopt"] else b""
     syno = SYNOPTS[st["syn"]](1000 + c)
-    frames = [C(ic, 0, 0x02, opts=syno), S(is_, ic + 1, 0x12, opts=syno)]
+    frames = [C(ic, 0, st["synflags"], opts=syno), S(is_, ic + 1, st["synackflags"], opts=syno)]
     if kind == "tcp":
         frames.append(C(ic + 1, is_ + 1, 0x10, opts=ts(1100 + c, 5)))
     elif kind == "http":
@@ -181,4 +187,33 @@ def noise(rng, ipid, n):
         else:
             f = bytearray(rng.randbytes(rng.choice([0, 1, 13, 14, 15, 33])))
         out.append(bytes(f))
+    return out
+
+
+def unreadable(rng, ipid, n):
+    """n frames that carry a perfectly good TCP SYN (options, timestamps) or data segment, but behind a link-layer header the
+    analyzers do not read: an 802.1Q tag, a QinQ double tag, PPPoE, MPLS, an LLC/SNAP header, the BSD loopback header for AF_INET
+    (02 00 00 00).  No analyzer reports anything for them, with or without a filter, sequentially or in a pool."""
+    out = []
+    for i in range(n):
+        v = rng.choice([4, 6])
+        a, b = ((10, 66, 0, 1 + i % 200), (10, 66, 1, 1)) if v == 4 else (V6FORMS[0](5000 + i), V6FORMS[0](5999))
+        inner = pkt(v, a, b, 46000 + i, rng.choice([80, 443]), 77, 0, 0x02, tcpopts=SYNOPTS[0](900 + i), ipid=ipid())
+        ip = inner[14:]
+        et = inner[12:14]
+        macs = inner[:12]
+        k = i % 6
+        if k == 0:
+            f = macs + b"\x81\x00" + bytes([0, 100]) + et + ip
+        elif k == 1:
+            f = macs + b"\x88\xa8" + bytes([0, 7]) + b"\x81\x00" + bytes([0, 100]) + et + ip
+        elif k == 2:
+            f = macs + b"\x88\x64" + bytes([0x11, 0, 0, 1, len(ip) + 2 >> 8, (len(ip) + 2) & 255, 0, 0x21 if v == 4 else 0x57]) + ip
+        elif k == 3:
+            f = macs + b"\x88\x47" + bytes([0, 1, 1, 64]) + ip
+        elif k == 4:
+            f = macs + bytes([(len(ip) + 8) >> 8, (len(ip) + 8) & 255]) + bytes([0xaa, 0xaa, 3, 0, 0, 0]) + et + ip
+        else:
+            f = bytes([2, 0, 0, 0]) + ip if v == 4 else bytes([0x18, 0, 0, 0]) + ip
+        out.append(f)
     return out
